@@ -111,6 +111,10 @@ Record change := { ch_bc : bool; ch_ac : bool; ch_cur : list entry }.
 
 Inductive op :=
 | Insert (peer sess : N) (p : prefix) (pid : N) (nh : option nexthop) (tok : N)
+| InsertLim (peer sess : N) (p : prefix) (pid : N) (nh : option nexthop) (tok : N) (max cnt : N)
+    (* insert_route with a prefix limit [max] and the session's counter at [cnt] *)
+| StartDef (f : N)                     (* start_deferral_families: family = prefix kind *)
+| EndDef (f : N)                       (* end_deferral_families *)
 | Remove (peer sess : N) (p : prefix) (pid : N)
 | DropPeer (peer : N)
 | MarkStale (peer : N)
@@ -126,12 +130,13 @@ Record st := {
   s_get : prefix -> dest;          (* empty list = no Destination *)
   s_fl : flags;
   s_inv : list N;                  (* TableManager.nexthop_invalid *)
-  s_pol : N                        (* 0 = no import policy, k = policy k-1 *)
+  s_pol : N;                       (* 0 = no import policy, k = policy k-1 *)
+  s_def : list N                   (* families in restarting-speaker deferral (Rib.deferring) *)
 }.
 
 Definition st0 : st :=
   {| s_keys := []; s_get := fun _ => dest0; s_fl := {| f_stale := []; f_llgr := [] |};
-     s_inv := []; s_pol := 0 |}.
+     s_inv := []; s_pol := 0; s_def := [] |}.
 
 (* lexicographic comparison of equally long number lists *)
 Fixpoint lcmp (a b : list N) : comparison :=
@@ -444,37 +449,64 @@ Definition add_key (p : prefix) (ks : list prefix) : list prefix :=
 Definition srcs_of (s : st) (peer : N) : list (N * N) :=
   flat_map (fun p => map esrc (filter (fun e => e_peer e =? peer) (d_l (s_get s p)))) (s_keys s).
 
+(* while a family is in deferral its table reports no change (Table::insert returns
+   NoChange, the purges clear their change lists ...): no FIB request for its
+   prefixes; next-hop registrations are not affected *)
+Definition is_apply (r : req) : bool := match r with Apply _ _ _ => true | _ => false end.
+Definition gate (def : list N) (p : prefix) (rq : list req) : list req :=
+  if memN (fst p) def then filter (fun r => negb (is_apply r)) rq else rq.
+
 (* a per-destination pass over the whole table *)
 Definition sweep (s : st) (fl' : flags) (f : prefix -> dest -> dest * list req) : st * list req :=
   ({| s_keys := s_keys s; s_get := fun p => fst (f p (s_get s p)); s_fl := fl';
-      s_inv := s_inv s; s_pol := s_pol s |},
-   flat_map (fun p => snd (f p (s_get s p))) (s_keys s)).
+      s_inv := s_inv s; s_pol := s_pol s; s_def := s_def s |},
+   flat_map (fun p => gate (s_def s) p (snd (f p (s_get s p)))) (s_keys s)).
 
 Definition purge_pass (s : st) (sel : entry -> bool) : st * list req :=
   sweep s (s_fl s) (fun p d =>
     let '(d', ch, nhl) := do_purge sel d in
     (d', distribute_opt (s_fl s) p ch ++ map Unreg nhl)).
 
-Definition step (s : st) (o : op) : st * list req :=
-  match o with
-  | Insert peer sess p pid nh0 tok =>
+Definition step_ins (s : st) (peer sess : N) (p : prefix) (pid : N) (nh0 : option nexthop) (tok : N) : st * list req :=
     let d := s_get s p in
     let old_nh := lookup_nexthop d peer pid in
     let '(filtered, nh) := apply_import (s_pol s) peer nh0 in
     let invf := match oaddr nh with Some a => memN a (s_inv s) | None => false end in
     let '(d', ch) := do_insert (s_fl s) d (peer, sess) pid nh tok (attr_of tok) filtered invf in
     ({| s_keys := add_key p (s_keys s); s_get := upd p d' (s_get s); s_fl := s_fl s;
-        s_inv := s_inv s; s_pol := s_pol s |},
-     nht_register peer (oaddr nh) old_nh ++ distribute_opt (s_fl s) p ch)
+        s_inv := s_inv s; s_pol := s_pol s; s_def := s_def s |},
+     gate (s_def s) p (nht_register peer (oaddr nh) old_nh ++ distribute_opt (s_fl s) p ch)).
+
+(* Table::insert's prefix-limit test: a peer's first path for a prefix is refused
+   (before anything is registered or installed) when its counter has reached the limit *)
+Definition limit_refuses (s : st) (peer : N) (p : prefix) (max cnt : N) : bool :=
+  negb (existsb (fun e => e_peer e =? peer) (d_l (s_get s p))) && (max <=? cnt).
+
+Definition step (s : st) (o : op) : st * list req :=
+  match o with
+  | Insert peer sess p pid nh0 tok => step_ins s peer sess p pid nh0 tok
+  | InsertLim peer sess p pid nh0 tok max cnt =>
+    if limit_refuses s peer p max cnt then (s, []) else step_ins s peer sess p pid nh0 tok
+  | StartDef f =>
+    ({| s_keys := s_keys s; s_get := s_get s; s_fl := s_fl s; s_inv := s_inv s; s_pol := s_pol s;
+        s_def := f :: s_def s |}, [])
+  | EndDef f =>
+    (* Table::end_deferral: every destination of the family is reported as changed *)
+    ({| s_keys := s_keys s; s_get := s_get s; s_fl := s_fl s; s_inv := s_inv s; s_pol := s_pol s;
+        s_def := filter (fun x => negb (x =? f)) (s_def s) |},
+     flat_map (fun p => if (fst p =? f) && negb (match d_l (s_get s p) with [] => true | _ => false end)
+                        then distribute (s_fl s) p {| ch_bc := true; ch_ac := true; ch_cur := eligs (d_l (s_get s p)) |}
+                        else []) (s_keys s))
   | Remove peer sess p pid =>
     let '(d', ch, r) := do_remove (s_get s p) peer pid in
     ({| s_keys := s_keys s; s_get := upd p d' (s_get s); s_fl := s_fl s;
-        s_inv := s_inv s; s_pol := s_pol s |},
-     distribute_opt (s_fl s) p ch ++
-     match r with
-     | Some e => if peer =? 0 then [] else opt_unreg (e_nh e)
-     | None => []
-     end)
+        s_inv := s_inv s; s_pol := s_pol s; s_def := s_def s |},
+     gate (s_def s) p
+       (distribute_opt (s_fl s) p ch ++
+        match r with
+        | Some e => if peer =? 0 then [] else opt_unreg (e_nh e)
+        | None => []
+        end))
   | DropPeer peer => purge_pass s (fun e => e_peer e =? peer)
   | DropStale peer => purge_pass s (fun e => (e_peer e =? peer) && e_stale (s_fl s) e)
   | DropLlgr peer => purge_pass s (fun e => (e_peer e =? peer) && e_srcllgr (s_fl s) e)
@@ -493,9 +525,9 @@ Definition step (s : st) (o : op) : st * list req :=
                 else if memN a (s_inv s) then s_inv s else a :: s_inv s in
     let '(s1, r) := sweep s (s_fl s) (fun p d =>
                       let '(d', ch) := do_validity a reachable d in (d', distribute_opt (s_fl s) p ch)) in
-    ({| s_keys := s_keys s1; s_get := s_get s1; s_fl := s_fl s1; s_inv := inv'; s_pol := s_pol s1 |}, r)
+    ({| s_keys := s_keys s1; s_get := s_get s1; s_fl := s_fl s1; s_inv := inv'; s_pol := s_pol s1; s_def := s_def s1 |}, r)
   | SetPolicy k =>
-    ({| s_keys := s_keys s; s_get := s_get s; s_fl := s_fl s; s_inv := s_inv s; s_pol := k |}, [])
+    ({| s_keys := s_keys s; s_get := s_get s; s_fl := s_fl s; s_inv := s_inv s; s_pol := k; s_def := s_def s |}, [])
   | SoftResetIn peer =>
     sweep s (s_fl s) (do_reset (s_fl s) (s_inv s) (s_pol s) peer)
   end.
